@@ -28,6 +28,8 @@ CLAIMED = {
          "seeded simulation of the C ABI on a simulated tokio runtime; differential oracle", "4 C18"),
  "C19": ("map semantics: seeded add/update/delete/get sequences through the extern \"C\" database functions inside configure/transaction/write callbacks, interleaved with client reads over the simulated network, against model::db. Atomicity under thread pre-emption: see level_note",
          "seeded simulation; reference map model (atomicity: shuttle schedule exploration)", "4 C19"),
+ "C20": ("paired replays of the C01-C06/C10-C14 workload tapes on the canonical schedule at the lowest and highest decode level and with a run-time level change injected at a tape-derived position; all observables byte-identical",
+         "seeded simulation; metamorphic (paired-replay) oracle", "4 C20"),
  "C10": ("exact lock-step comparison of the real client task with model::client over seeded action/fault sequences (replies, timeouts, I/O errors, enable/disable, shutdown, handle drop, task abort, clock jumps) in virtual time; exactly-once and result class per request",
          "seeded simulation with fault injection; refinement against an executable reference model", "4 C10"),
  "C11": ("same lock-step runs: wire frames and tx ids vs model; stale/duplicate/future/unsolicited frames never complete a request; 66 000-request wrap run",
